@@ -87,7 +87,7 @@ what reached the file and what the stream still buffers are together the bytes h
 def WrOK (ps : PState) (g : Nat) (fs : World) : Prop :=
   ∃ f, fs.file g = some f ∧
     (∀ h, (locOf ps.trace).fd = some h → ∃ off wr, ps.handles.getD h .closed = .file g off wr) ∧
-    (∀ h, (locOf ps.trace).dup = some h → ∃ off wr, ps.handles.getD h .closed = .file g off wr) ∧
+    (∀ h, (locOf ps.trace).dup = some h → (∃ off wr, ps.handles.getD h .closed = .file g off wr) ∧ (locOf ps.trace).fd ≠ some h) ∧
     (∀ h, (locOf ps.trace).st = some h → ∃ buf, ps.handles.getD h .closed = .stream g buf ∧ f.data ++ buf = (locOf ps.trace).wr) ∧
     ((locOf ps.trace).st = none → f.data = (locOf ps.trace).wr)
 
